@@ -5,7 +5,9 @@ the codec hypothesis).  Correspondence (hook H3, `rlharness json`):
      model's enc tree, leaf by leaf (floats as bit patterns);
  (b) from_json(to_json(o)) == o (tagged and direct) and bincode round trip == o on the real code, doubles drawn from the
      full bit-pattern space; the codec hypothesis itself on bare doubles;
- (c) every public query answered identically by the loaded object."""
+ (c) every public query answered identically by the loaded object;
+ (e) negative controls: each object against copies changed in one place must compare UNEQUAL under the type's own == (op `neq`)."""
+import random
 from common import *  # noqa
 import jsongen as J
 import translate
@@ -143,6 +145,55 @@ def check_rt(ctx, objs, population):
         ctx.violation(what, rp)
 
 
+def check_neq(ctx, objs):
+    """(e) NEGATIVE CONTROLS of the equality every round trip above is judged by (the payload type's own PartialEq, hook
+    `Tagged::same`): for each generated object, copies changed in ONE place that the type's equality is meant to see - one float by
+    one ulp, one name, one holiday / week-mask day, one node, one quote, one knot, one coefficient, one enum field; for the calendars
+    whose equality is semantic (UnionCal, NamedCal: business and settlement days over 1970-2200) a holiday added on a business /
+    settlement day or another calendar name - must compare UNEQUAL to the original in both directions, and the original equal
+    to itself.  An equality that always answers `true` would make (b) vacuous; this is what rules it out."""
+    rng = random.Random(ctx.seed * 7919 + 16)
+    lines, meta = [], []
+    for o in objs:
+        ty = J.KINDS[o[0]]
+        ps = J.perturbations(rng, o, limit=2)
+        if not ps:
+            ctx.count("neq: no perturbation applicable (%s)" % ty)
+        for lab, e in ps:
+            lines.append("neq " + " ".join(map(str, o)) + " " + " ".join(map(str, e)))
+            meta.append((ty, lab, o, e))
+    impl = run_harness("json", lines)
+    groups = {}
+    for (ty, lab, o, e), ln, a in zip(meta, lines, impl):
+        ctx.evaluations += 1
+        if a[0] == 1:
+            ctx.count("neq: original or perturbed copy not constructible (skipped)")
+            continue
+        ctx.count("neq (negative control): %s: %s" % (ty, lab))
+        if a[0] == 0 and a[1:4] == [0, 0, 1]:
+            ctx.count("neq: perturbed copies found UNEQUAL by the real ==")
+            ctx.nontriv(("neq", tuple(e)))
+            continue
+        if a[0] != 0:
+            key = (ty, "equality-abort")
+            what = "comparing a %s with a copy of itself changed in one place (%s) ABORTS" % (ty, lab)
+        elif a[3] != 1:
+            key = (ty, "equality-irreflexive")
+            what = "a %s built from finite values does not compare equal to itself" % ty
+        else:
+            key = (ty, "equality-blind")
+            what = ("the == of %s does not see a change the round-trip check relies on it to see: %s (original == copy: %s, copy == "
+                    "original: %s)" % (ty, lab, bool(a[1]), bool(a[2])))
+        rp = {"part": "neq", "class": key[1], "type": ty, "change": lab, "object": o, "perturbed": e, "flags": a[:6],
+              "harness_cmd": harness_cmd(ln)[:8000]}
+        ctx.count("neq finding: %s/%s" % key)
+        if key not in groups or len(o) < groups[key][0]:
+            groups[key] = (len(o), what, rp)
+    for key in sorted(groups):
+        _, what, rp = groups[key]
+        ctx.violation(what, rp)
+
+
 def check_pk(ctx, objs):
     """(d) the pickle protocol of the Python-visible classes (the *_py.rs pickling blocks), through the interpreter:
     __getstate__ returns the bincode of the object, type(obj)(*obj.__getnewargs__()) constructs, __setstate__ restores;
@@ -192,7 +243,9 @@ def run(ctx):
                 "with 1-6 nodes of each AD order, all 6 interpolators, 11 conventions, 5 modifiers, each calendar kind, optional index "
                 "base; splines of order 1-4 of the three types with and without coefficients). Doubles: (full) uniform over the bit "
                 "patterns of finite doubles + full-precision doubles of ordinary magnitude; (survivors) the same, filtered by the bare "
-                "text round trip. Non-trivial = an object whose text is longer than 60 bytes / answers more than 4 query values.")
+                "text round trip. NEGATIVE CONTROLS: every object of the survivor population against up to two copies changed in one place (one "
+                "float by one ulp / one name / holiday / week-mask day / node / quote / knot / coefficient / enum field; for UnionCal and NamedCal "
+                "a change their semantic equality sees) must be unequal both ways under the type's own ==. Non-trivial = an object whose text is longer than 60 bytes / answers more than 4 query values.")
     ctx.trusted = [
         "Coq 8.16.1 kernel; no axioms (all C16 theorems closed under the global context)",
         "serde_json + ryu text codec and bincode: an interface in the proof (section variables print/parse, hypothesis "
@@ -241,6 +294,8 @@ def run(ctx):
     # (b) on the full space
     objs_f = gen_objects(ctx, n, J.full_float, "rt (full doubles)")
     check_rt(ctx, objs_f, "full")
+    # (e) negative controls of the equality (b) and (d) are judged by
+    check_neq(ctx, objs_s)
     # (d) the pickle protocol through the interpreter, on both populations (the state is binary: every double is exact)
     check_pk(ctx, objs_s + objs_f)
     for o in objs_a[:3]:
@@ -262,6 +317,11 @@ def replay(ctx, rp):
         a = run_harness("json", ["rt " + " ".join(map(str, rp["object"]))])[0]
         bad = not (a[0] == 0 and all(f == 1 for f in a[1:7]))
         print("replay round trip of a %s: %s" % (rp.get("type"), "; ".join("%s=%s" % (n, f) for n, f in zip(FLAGS, a[1:8]))))
+    elif part == "neq":
+        a = run_harness("json", ["neq " + " ".join(map(str, rp["object"])) + " " + " ".join(map(str, rp["perturbed"]))])[0]
+        bad = not (a[0] == 0 and a[1:4] == [0, 0, 1])
+        print("replay equality of a %s against a copy with %s: outcome %s, original == copy %s, copy == original %s, original == original %s" % (
+            rp.get("type"), rp.get("change"), a[:1], a[1:2], a[2:3], a[3:4]))
     elif part == "pk":
         a = run_harness("json", ["pk " + " ".join(map(str, rp["object"]))])[0]
         bad = not (a[0] == 0 and a[1:4] == [1, 1, 1])
